@@ -17,10 +17,10 @@ from lib.ctx import Ctx  # noqa: E402
 
 def loose_key(key):
     """a construct key without the function path and without the parts that depend on how the code is laid out:
-    `ast_to_source::expr_to_source[Call]#func:unguarded=A,B` -> `[Call]#func`, `..[String]#replace0` -> `[String]#replace`"""
+    `ast_to_source::expr_to_source[Call]#func:unguarded=A,B` -> `[Call]#func:unguarded=A,B`, `..[String]#replace0` -> `[String]#replace`"""
     import re as _re
     k = key[key.index("["):] if "[" in key else key
-    k = _re.sub(r":unguarded=.*$", "", k)
+    # (the set of unguarded kinds stays part of the key: a site that lost a guard is a different - worse - finding, not a moved one)
     k = _re.sub(r"#(\D+)\d+$", r"#\1", k)
     k = _re.sub(r"->expr_to_source#?$", "->expr_to_source", k)
     return k
